@@ -14,7 +14,7 @@ contract declares them.
 from __future__ import annotations
 import ast
 import z3
-from .sorts import (V, VInt, VBool, VU, VNone, VOpt, VSlice, VTuple, VList, VRec, VConst, VRange,
+from .sorts import (VSeq, V, VInt, VBool, VU, VNone, VOpt, VSlice, VTuple, VList, VRec, VConst, VRange,
                     VUnknown, VFunc, Unsupported, parse_sort, fresh_value, fresh_name, coerce, leaves,
                     from_leaves, infer_sort, unify, sort_complete, ite, equal, list_get, list_append,
                     list_literal, default_value, z3sorts)
@@ -159,6 +159,10 @@ class Engine:
 
     def oblige(self, st, goal, name, kind, node=None, note=''):
         if st.spec:
+            return
+        if z3.is_and(goal) and kind in ('post', 'invariant', 'yield', 'exit', 'raise', 'pre') and goal.num_args() > 1:
+            for i, child in enumerate(goal.children()):      # one query per conjunct (DESIGN §2.2 query shaping)
+                self.oblige(st, child, f'{name}.{i}', kind, node, note)
             return
         goal = z3.simplify(goal) if z3.is_bool(goal) else goal
         if z3.is_true(goal):
@@ -510,6 +514,8 @@ class Engine:
         return out
 
     def as_sequence(self, it, st):
+        if isinstance(it, VSeq):
+            return (it.length, it.get)
         if isinstance(it, VList):
             return (it.length, lambda i, it=it: list_get(it, i))
         if isinstance(it, VRange):
@@ -522,6 +528,8 @@ class Engine:
             items = it.items
             if not items:
                 return (z3.IntVal(0), lambda i: VUnknown('empty'))
+            if len(items) == 1:
+                return (z3.IntVal(1), lambda i: items[0])
             srt = None
             for x in items:
                 srt = unify(srt, infer_sort(x))
@@ -542,6 +550,25 @@ class Engine:
             for s in seqs[1:]:
                 n = z3.If(s[0] < n, s[0], n)
             return (n, lambda i: VTuple([s[1](i) for s in seqs]))
+        if isinstance(it, VConst) and isinstance(it.py, tuple) and it.py and it.py[0] == 'zip_longest':
+            seqs = [self.as_sequence(x, st) for x in it.py[1]]
+            fill = it.py[2]
+            n = seqs[0][0]
+            for s in seqs[1:]:
+                n = z3.If(s[0] > n, s[0], n)
+
+            def getl(i):
+                items = []
+                for ln, g in seqs:
+                    items.append(ite(i < ln, g(i), fill))
+                return VTuple(items)
+            return (n, getl)
+        if isinstance(it, VConst) and isinstance(it.py, tuple) and it.py and it.py[0] == 'chain':
+            seqs = [self.as_sequence(x, st) for x in it.py[1]]
+            if len(seqs) != 2:
+                raise Unsupported('chain of != 2 iterables')
+            (n0, g0), (n1, g1) = seqs
+            return (n0 + n1, lambda i: ite(i < n0, g0(i), g1(i - n0)))
         raise Unsupported(f'iteration over {it!r}')
 
     # ---- generators ---------------------------------------------------------------------
@@ -870,7 +897,14 @@ class Engine:
                 t = equal(a, b)
             return t if isinstance(op, ast.Eq) else z3.Not(t)
         if isinstance(op, (ast.In, ast.NotIn)):
-            t = self.contains(b, a, st)
+            t = None
+            if isinstance(b, VRec) and f'{b.name}.__contains__' in self.reg:
+                fake = ast.Call(func=ast.Attribute(value=node.comparators[0], attr='__contains__', ctx=ast.Load()), args=[node.left], keywords=[])
+                ast.copy_location(fake, node)
+                ast.fix_missing_locations(fake)
+                t = self.truth(self.menv.apply_contract(f'{b.name}.__contains__', fake, self, st, recv=b, args=[a]), st)
+            if t is None:
+                t = self.contains(b, a, st)
             return t if isinstance(op, ast.In) else z3.Not(t)
         x = self.need_int(a, st, node).t
         y = self.need_int(b, st, node).t
@@ -933,6 +967,12 @@ class Engine:
             v = self.menv.attr_model(base, a, self, st)
             if v is not None:
                 return v
+            pk = f'{base.name}.{a}'
+            if pk in self.reg and self.reg[pk].get('property'):
+                fake = ast.Call(func=ast.Attribute(value=node.value, attr=a, ctx=ast.Load()), args=[], keywords=[])
+                ast.copy_location(fake, node)
+                ast.fix_missing_locations(fake)
+                return self.menv.apply_contract(pk, fake, self, st, recv=base, args=[])
             raise Unsupported(f'record {base.name} has no modelled field {a}')
         if isinstance(base, VOpt) and not st.spec:
             self.oblige(st, z3.Not(base.isnone), f'no-AttributeError-None@L{node.lineno}', 'safety', node)
@@ -1016,10 +1056,30 @@ class Engine:
         return VConst('<fstring>')
 
     def ev_GeneratorExp(self, node, st):
-        return self.menv.comprehension(node, self, st)
+        return self.comprehension(node, st)
 
     def ev_ListComp(self, node, st):
-        return self.menv.comprehension(node, self, st)
+        return self.comprehension(node, st)
+
+    def comprehension(self, node, st):
+        """[elt for target in iterable] over a modelled sequence -> lazily mapped sequence (no filter, one generator)"""
+        if len(node.generators) != 1 or node.generators[0].ifs or node.generators[0].is_async:
+            raise Unsupported('comprehension with filter / several generators')
+        g = node.generators[0]
+        n, get = self.as_sequence(self.ev(g.iter, st), st)
+        env0 = dict(st.env)
+        eng = self
+
+        def getter(i):
+            s2 = st.clone()
+            s2.env = dict(env0)
+            s2.spec = True        # element evaluation raises no obligations here (re-evaluated at each use)
+            eng.assign(s2, g.target, get(i), None)
+            return eng.ev(node.elt, s2)
+        return VSeq(n, getter)
+
+    def ev_Starred(self, node, st):
+        raise Unsupported('starred expression outside call arguments')
 
 
 def _as_load(t):
